@@ -57,7 +57,7 @@ def gen_case(seed, profile=None):
     if history_free:
         spec = pick_leaky_world(rng)
     else:
-        spec = pick_world(rng, p_corpus=profile.get("p_corpus", 0.2))
+        spec = pick_world(rng, p_corpus=profile.get("p_corpus", 0.27))
     cid = "c08-%d" % seed
     info = gen07.world_info(spec, key=cid)
     n = rng.randint(profile.get("min_steps", 2), profile.get("max_steps", 5))
